@@ -10,6 +10,7 @@ import (
 	"gonum.org/v1/gonum/graph"
 	"gonum.org/v1/gonum/graph/encoding"
 	"gonum.org/v1/gonum/graph/encoding/dot"
+	"gonum.org/v1/gonum/graph/multi"
 	"gonum.org/v1/gonum/graph/simple"
 
 	"verif/harness/internal/core"
@@ -94,6 +95,18 @@ func (e *srcEdge) ReversedEdge() graph.Edge {
 	return &srcEdge{f: e.t, t: e.f, attrs: e.attrs, fp: e.tp, fc: e.tc, tp: e.fp, tc: e.fc}
 }
 
+// srcLine is a multigraph line with attributes and ports.
+type srcLine struct {
+	srcEdge
+	id int64
+}
+
+func (l *srcLine) ID() int64 { return l.id }
+func (l *srcLine) ReversedLine() graph.Line {
+	r := l.srcEdge.ReversedEdge().(*srcEdge)
+	return &srcLine{srcEdge: *r, id: l.id}
+}
+
 // ---- destination side: what dot.Unmarshal builds --------------------------
 
 type dstNode struct {
@@ -141,6 +154,31 @@ type dstUndirected struct{ *simple.UndirectedGraph }
 func (g dstUndirected) NewNode() graph.Node { return &dstNode{id: g.UndirectedGraph.NewNode().ID()} }
 func (g dstUndirected) NewEdge(f, t graph.Node) graph.Edge {
 	return &dstEdge{f: f, t: t}
+}
+
+type dstLine struct {
+	dstEdge
+	id int64
+}
+
+func (l *dstLine) ID() int64 { return l.id }
+func (l *dstLine) ReversedLine() graph.Line {
+	r := l.dstEdge.ReversedEdge().(*dstEdge)
+	return &dstLine{dstEdge: *r, id: l.id}
+}
+
+type dstMultiDirected struct{ *multi.DirectedGraph }
+
+func (g dstMultiDirected) NewNode() graph.Node { return &dstNode{id: g.DirectedGraph.NewNode().ID()} }
+func (g dstMultiDirected) NewLine(f, t graph.Node) graph.Line {
+	return &dstLine{dstEdge: dstEdge{f: f, t: t}, id: g.DirectedGraph.NewLine(f, t).ID()}
+}
+
+type dstMultiUndirected struct{ *multi.UndirectedGraph }
+
+func (g dstMultiUndirected) NewNode() graph.Node { return &dstNode{id: g.UndirectedGraph.NewNode().ID()} }
+func (g dstMultiUndirected) NewLine(f, t graph.Node) graph.Line {
+	return &dstLine{dstEdge: dstEdge{f: f, t: t}, id: g.UndirectedGraph.NewLine(f, t).ID()}
 }
 
 // ---- abstract structure as comparable text ---------------------------------
@@ -224,7 +262,28 @@ func replayDot(in *core.Lines, args []string, seed int64, sum *core.Summary) err
 		// Marshal
 		var data []byte
 		var err error
+		isMulti := c.Role == "multi"
 		o := core.CallTimeout(20*time.Second, func() {
+			if isMulti {
+				var g interface {
+					graph.Multigraph
+					AddNode(graph.Node)
+					SetLine(graph.Line)
+				}
+				if c.Dir {
+					g = multi.NewDirectedGraph()
+				} else {
+					g = multi.NewUndirectedGraph()
+				}
+				for _, n := range nodes {
+					g.AddNode(n)
+				}
+				for i, e := range edges {
+					g.SetLine(&srcLine{srcEdge: *e, id: int64(i*5 + 2)})
+				}
+				data, err = dot.MarshalMulti(g, "", "", " ")
+				return
+			}
 			if c.Dir {
 				g := simple.NewDirectedGraph()
 				for _, n := range nodes {
@@ -257,6 +316,50 @@ func replayDot(in *core.Lines, args []string, seed int64, sum *core.Summary) err
 		// Unmarshal what Marshal wrote
 		var got structure
 		o = core.CallTimeout(20*time.Second, func() {
+			if isMulti {
+				var dst encoding.MultiBuilder
+				if c.Dir {
+					dst = dstMultiDirected{multi.NewDirectedGraph()}
+				} else {
+					dst = dstMultiUndirected{multi.NewUndirectedGraph()}
+				}
+				err = dot.UnmarshalMulti(data, dst)
+				if err != nil {
+					return
+				}
+				mtxt := func(as []encoding.Attribute) string {
+					var xs []string
+					for _, a := range as {
+						xs = append(xs, fmt.Sprintf("%q=%q", a.Key, a.Value))
+					}
+					sort.Strings(xs)
+					return "[" + strings.Join(xs, ",") + "]"
+				}
+				it := dst.Nodes()
+				var ns []*dstNode
+				for it.Next() {
+					n := it.Node().(*dstNode)
+					ns = append(ns, n)
+					got.nodes = append(got.nodes, fmt.Sprintf("%q%s", n.dotID, mtxt(n.attrs)))
+				}
+				for _, u := range ns {
+					for _, v := range ns {
+						if u == v || (!c.Dir && v.ID() < u.ID()) {
+							continue
+						}
+						ls := dst.Lines(u.ID(), v.ID())
+						for ls.Next() {
+							l := ls.Line().(*dstLine)
+							fn, tn := l.From().(*dstNode), l.To().(*dstNode)
+							if c.Dir && fn != u {
+								continue
+							}
+							got.edges = append(got.edges, edgeText(c.Dir, endText(fn.dotID, l.fp, l.fc), endText(tn.dotID, l.tp, l.tc), mtxt(l.attrs)))
+						}
+					}
+				}
+				return
+			}
 			var dst encoding.Builder
 			if c.Dir {
 				dst = dstDirected{simple.NewDirectedGraph()}
